@@ -228,7 +228,8 @@ func runC15(r *simkit.Run) {
 	if err != nil {
 		panic(err)
 	}
-	if err := rcv.Start(context.Background(), host); err != nil {
+	rctx, rStarted := simkit.StartContext(tp)
+	if err := rcv.Start(rctx, host); err != nil {
 		// no socket to be had right now: an infrastructure condition, not a property violation
 		r.Count("probe.infra_socket_unavailable")
 		r.Logf("skipped: receiver start: %v", sanitize(err, pg, ph))
@@ -236,6 +237,7 @@ func runC15(r *simkit.Run) {
 		time.Sleep(200 * time.Millisecond)
 		return
 	}
+	rStarted()
 	rcvDown := false
 	stopReceiver := func() {
 		if !rcvDown {
@@ -368,9 +370,11 @@ func runC15(r *simkit.Run) {
 	if err != nil {
 		panic(fmt.Sprintf("exporter create: %v", err))
 	}
-	if err := exp.Start(context.Background(), host); err != nil {
+	ectx, eStarted := simkit.StartContext(tp)
+	if err := exp.Start(ectx, host); err != nil {
 		panic(fmt.Sprintf("exporter start: %v", err))
 	}
+	eStarted()
 	defer func() { _ = exp.Shutdown(context.Background()) }()
 	simkit.Beat()
 	if cfg.Prelude != "" {
